@@ -243,7 +243,10 @@ func Run(r *vf.Run) {
 				if err != nil {
 					return nil, nil, fmt.Errorf("generator discard: %v", err)
 				}
-				blt.Pkg.Prog.Build()
+				if ps := corpus.SafeBuild(blt.Pkg.Prog); len(ps) > 0 {
+					// (in lifted mode the dominance frontier is computed from the tree under test)
+					return nil, nil, fmt.Errorf("panic: builder [mode %s] %s\nsource:\n%s", m, ps[0], src)
+				}
 				prng := r.Rand("pairs", i)
 				for _, fn := range corpus.Functions(blt.Pkg.Prog) {
 					all = append(all, checkFn(fn, st, func(n int) [][2]int {
@@ -268,7 +271,10 @@ func Run(r *vf.Run) {
 			if err != nil {
 				return nil, nil, err
 			}
-			_, fns := corpus.Build(pkgs, ir.GlobalDebug)
+			_, fns, bps := corpus.BuildSafe(pkgs, ir.GlobalDebug)
+			if len(bps) > 0 {
+				return nil, nil, fmt.Errorf("panic: builder %s", bps[0])
+			}
 			prng := r.Rand("pairs-"+name, 0)
 			var all []issue
 			for _, fn := range fns {
